@@ -16,7 +16,7 @@ from fractions import Fraction
 
 from .values import (
     App, BoundMethod, BuiltinV, ClassMethodV, ClassV, Cond, DictV, Ext, FuncV, Lin, ListOf, ListV,
-    LazyV, UNRESOLVED, ModuleV, Obj, PartialV, PropertyV, SetV, StaticV, SuperV, Sym, SymStr, Unsupported, cmp_cond,
+    IterV, LazyV, UNRESOLVED, ModuleV, Obj, PartialV, PropertyV, SetV, StaticV, SuperV, Sym, SymStr, Unsupported, cmp_cond,
     fresh_id, is_num, num_add, num_div, num_mul, show, str_concat, vkey,
 )
 
@@ -721,6 +721,22 @@ class Interp:
             return "known", list(it.items)
         if isinstance(it, frozenset):
             return "known", sorted(it, key=repr)
+        if isinstance(it, IterV):
+            if it.consumed:
+                return "known", []
+            it.consumed = True
+            kind, items = self.iterate(it.source, node)
+            if kind != "known":
+                if it.fn is not None:
+                    self.unsupported("filter/map over a list of unknown length", node)
+                return kind, items
+            if it.kind == "filter":
+                if it.fn is None:
+                    return "known", [x for x in items if self.truth(x, node)]
+                return "known", [x for x in items if self.truth(self.call(it.fn, [x], {}, node), node)]
+            if it.kind == "map":
+                return "known", [self.call(it.fn, [x], {}, node) for x in items]
+            return "known", items
         if isinstance(it, DictV):
             return "known", list(it.items.keys())
         if isinstance(it, str):
